@@ -27,6 +27,11 @@ PROPS = {
         "partial": "the refinement theorem is about the L2 model (logical segment files; sealing decided by byte sizes, which the proof does not depend on) and programs whose indexes stay below 2^64-1; rotation is performed before the next call (the harness inserts a barrier); model = code is sampled exhaustively over a reduced alphabet to a length bound and randomly beyond, on simfs and on the real filesystem + BoltDB",
         "assumptions": ["no segment file exceeds 4 GiB (uint32 offsets; documented limit)", "immutable.SortedMap as a sorted list with the Seek/Prev semantics read from its source"],
     },
+    "C08": {
+        "suites": ["wal", "crash"],
+        "partial": "the theorem covers every sequential interleaving of Set/Get/SetUint64/GetUint64 with log calls and clean reopens on the model; survival of acknowledged Sets across crashes is checked by the crash suite on simfs (where a Set is one atomic durable event — BoltDB's own crash atomicity is trusted, not modelled); concurrent Set/Get with log calls is exercised by the conc suite when present",
+        "assumptions": ["BoltDB: a write transaction is atomic and durable when Commit returns; Get after Put returns the value"],
+    },
     "C09": {
         "suites": ["segment", "golden", "wal"],
         "partial": "Spec.Format is written from README.md alone (one ambiguity resolved by the property text: the first commit's CRC covers the file header); the CRC-32C primitive is shared between model and spec (external standard, compared with hash/crc32 on every run); the README calls the meta bucket 'wal-state' while the code uses 'wal-meta' (documentation discrepancy, recorded); the BoltDB record itself is compared through the meta op of the wal suite, not proved",
@@ -46,6 +51,11 @@ PROPS = {
         "suites": ["codec", "wal"],
         "partial": "time.Time is modelled by its MarshalBinary wire form (Go stdlib, trusted); pool aliasing is carried by the generated fact decoderBytesCopies plus the monitor that scribbles over the input buffer after Decode; StoreLogs/GetLog round trip and the codec-ID matrix across reopen are carried by the wal suite (correspondence + monitor)",
         "assumptions": ["time.Time.MarshalBinary/UnmarshalBinary as in Go 1.23 (wire form 15/16 bytes)", "bytes.Buffer.Write never fails"],
+    },
+    "C13": {
+        "suites": ["wal", "crash"],
+        "partial": "dir_exact and ids_never_reused are theorems for every sequential run (no reader pins an old state); after a crash that interrupted a truncation or rotation the exact-directory condition is checked on the real code after every Open of the crash suite; deletion deferred by concurrent readers is exercised by the conc suite when present",
+        "assumptions": ["VFS Delete = unlink + directory fsync (checked on the real layer by C07)"],
     },
     "C15": {
         "suites": ["sizes", "segment"],
@@ -74,7 +84,7 @@ PROPS = {
     },
     "C20": {
         "suites": ["wal", "verifier"],
-        "partial": "static half (every emitting call site is declared, right kind, literal name, no duplicates) is a theorem over the regenerated call-site table; the dynamic half (counters equal true totals) is decided by the correspondence of Model.Wal/Model.Verifier counters with the real AtomicCollector after every case plus the monitor that recomputes the totals from API results; the counters_exact theorem over all op sequences is not yet mechanised",
+        "partial": "static half (every emitting call site is declared, right kind, literal name, no duplicates) is a theorem over the regenerated call-site table; the dynamic half (counters equal true totals) is decided by the correspondence of Model.Wal/Model.Verifier counters with the real AtomicCollector after every case plus the monitor that recomputes the totals from API results; counters_exact is proved for every run over the reference log (truncation counters modulo 2^64, as in the code); rotations are compared through the correspondence only",
         "assumptions": [],
     },
 }
